@@ -70,7 +70,10 @@ EXTENDS Integers, Sequences, FiniteSets
 Line(k, c, h, r, args, kw, st) ==
   [k |-> k, c |-> c, h |-> h, r |-> r, args |-> args, kw |-> kw, st |-> st]
 
-P0 == [reg |-> {}, cur |-> 0, ran |-> 0]
+(* monitor state: registered controllers; current request (0: none); handler
+   bodies run for it; its candidates and the index of the pick (computed when
+   the request is seen)                                                       *)
+P0 == [reg |-> {}, cur |-> 0, ran |-> 0, cands |-> <<>>, pick |-> 0]
 
 -----------------------------------------------------------------------------
 (* strings *)
@@ -163,10 +166,10 @@ Fail(C, P, ln) ==
          ELSE IF ln.c \notin P.reg THEN "X01.unregistered_reached"
          ELSE IF ~C.ctrls[ln.c].hs[ln.h].exp THEN "X01.unexposed_reached"
          ELSE LET rq    == C.reqs[P.cur]
-                  cands == Cands(C, P.reg, rq)
+                  cands == P.cands
                   named == {i \in 1..Len(cands) : cands[i].c = ln.c /\ cands[i].j = ln.h}
                   mt    == Matches(C, cands, rq, ln)
-                  pk    == Pick(C, cands)
+                  pk    == P.pick
               IN IF named = {} THEN "X01.wrong_handler"
                  ELSE IF mt = {} THEN "X01.args_not_segments"
                  ELSE IF pk \in mt THEN ""
@@ -178,8 +181,8 @@ Fail(C, P, ln) ==
          ELSE IF P.ran > 0 THEN (IF ln.st # 200 THEN "X01.ran_but_error" ELSE "")
          ELSE IF ln.st = 200 THEN "X01.ok_without_handler"
          ELSE LET rq    == C.reqs[P.cur]
-                  cands == Cands(C, P.reg, rq)
-                  pk    == Pick(C, cands)
+                  cands == P.cands
+                  pk    == P.pick
               IN IF ~rq.canon THEN ""
                  ELSE IF pk = 0 THEN (IF ln.st # 404 THEN "X01.unroutable_not_404" ELSE "")
                  ELSE IF CBinds(C, cands[pk], rq) THEN "X01.not_routed"
@@ -189,9 +192,10 @@ Fail(C, P, ln) ==
 Apply(C, P, ln) ==
   CASE ln.k = "reg" -> [P EXCEPT !.reg = @ \cup {ln.c}]
     [] ln.k = "unreg" -> [P EXCEPT !.reg = @ \ {ln.c}]
-    [] ln.k = "req" -> [P EXCEPT !.cur = ln.r, !.ran = 0]
+    [] ln.k = "req" -> LET cands == Cands(C, P.reg, C.reqs[ln.r])
+                       IN [P EXCEPT !.cur = ln.r, !.ran = 0, !.cands = cands, !.pick = Pick(C, cands)]
     [] ln.k = "run" -> [P EXCEPT !.ran = @ + 1]
-    [] ln.k = "resp" -> [P EXCEPT !.cur = 0]
+    [] ln.k = "resp" -> [P EXCEPT !.cur = 0, !.cands = <<>>, !.pick = 0]
     [] OTHER -> P
 
 RECURSIVE Run(_, _, _, _)
